@@ -288,7 +288,7 @@ def hop_systems(draw, tier='quick', max_sites=6, max_diff=3, max_frames=10, lat_
         case['sites_cell_scale'] = draw(st.sampled_from([0.96, 1.04]))
     if framework:
         nf = draw(st.integers(1, 4))
-        fsym = [draw(st.sampled_from(['S', 'P', 'O'])) for _ in range(nf)]
+        fsym = [draw(st.sampled_from(['S', 'P', 'O', 'Si'])) for _ in range(nf)]  # (one symbol is contained in another)
         base = np.array([[draw(st.floats(0, 1, exclude_max=True)) for _ in range(3)] for _ in range(nf)])
         n = T * nf * 3
         u = np.array(draw(st.lists(st.floats(-0.02, 0.02), min_size=n, max_size=n))).reshape(T, nf, 3)
